@@ -14,7 +14,8 @@ MANIFEST = dict(
          "follow from the encoding fitting MAX_MESSAGE_SIZE (one generated obligation per array field, max < min_size(elem) * "
          "2^16, by computation; only Array<WireString> keeps its count bound as a hypothesis). C19_psbt_sound / C19_psbt_accepts: the StreamedPSBT decoder, when it accepts, yields the "
          "encoded transaction, the previous outputs the encoded PSBT designates and the reference segwit flags, and it "
-         "accepts exactly the consistent PSBTs. The combinators, the dispatch and the PSBT post-processing are compared with "
+         "accepts exactly the consistent PSBTs (a witness_utxo without its previous transaction only for witness-program / p2sh "
+         "outputs: C19_psbt_bare_claims). The combinators, the dispatch and the PSBT post-processing are compared with "
          "the real as_vec / msgs::from_vec on generated values of all registry types (boundary-driven), on malformed byte "
          "strings and on consistent/inconsistent PSBTs on every run, with a round-trip monitor on the implementation.",
     design="§4 C19",
@@ -27,7 +28,7 @@ MANIFEST = dict(
               "with the Rust implementation",
 )
 
-PINNED = ["C19_ids_unique", "C19_struct_codecs", "C19_registry", "C19_wf_from_size", "C19_registry_sized", "C19_psbt_sound", "C19_psbt_accepts",
+PINNED = ["C19_ids_unique", "C19_struct_codecs", "C19_registry", "C19_wf_from_size", "C19_registry_sized", "C19_psbt_sound", "C19_psbt_accepts", "C19_psbt_bare_claims", "C19_psbt_bare_legacy_refused",
           "C19_streamed_field", "C19_nonvacuous", "C19_psbt_nonvacuous", "C19_duplicate_id_misroutes",
           "C19_old_id20_refuted"]
 
@@ -148,8 +149,10 @@ def run(res):
                 "length that fits MAX_MESSAGE_SIZE (exactly 131072 bytes where the unit is one byte), one more (refused as too large), "
                 "65536 bytes of Octets / a NUL in a WireString (as_vec panics) and 65536 array elements (count truncated: observation); "
                 "malformed: truncations, one extra byte, changed payload bytes, another type's id, unknown ids, oversize; psbt: PSBTs "
-                "whose inputs are bare / witness_utxo only / previous tx (+ matching, + mismatching value or script, wrong txid, vout out "
-                "of range) with scripts around every decision of is_witness_program. Non-trivial: any message case other than the "
+                "whose inputs are bare / witness_utxo only about an admissible output (witness programs of every boundary shape, p2sh) / witness_utxo "
+                "only about a legacy output (p2pkh, p2sh-like scripts of 22 and 24 bytes and with each fixed opcode wrong, near-miss witness "
+                "programs: refused) / previous tx (+ matching, + mismatching value or script, wrong txid, vout out "
+                "of range) with scripts around every decision of is_witness_program and is_p2sh. Non-trivial: any message case other than the "
                 "all-minimal one that was encoded, malformed strings other than unmodified ones, accepted PSBTs with a previous "
                 "transaction; distinct by Coq term",
         "samples": [{k: v for k, v in c.items() if k not in ("value", "full_bytes")} for c in small[:2]]
